@@ -126,7 +126,35 @@ def _helper_of(func, call):
         m = func.module.functions.get(d)
         if m is not None and m is not func:
             return m
+    if func.cls is not None and d.count('.') == 1 and \
+            _own_instance(func, d.split('.')[0]):
+        # `obj = OwnClass()` / `cls()` ... `obj._helper(...)`
+        name = d.split('.')[1]
+        if name.startswith('_') and not name.startswith('__'):
+            m = func.cls.find_method(name)
+            if m is not None and m is not func and not m.is_static():
+                return m
     return None
+
+
+def _own_instance(func, name):
+    """the local `name` is bound exactly once in func, to a new instance of
+    the function's own class"""
+    from .model import dotted, walk_no_nested
+    if name in ('self', 'cls') or name in getattr(func, 'params', ()):
+        return False
+    node = getattr(func, 'orig', func).node
+    defs = [n for n in walk_no_nested(node)
+            if isinstance(n, ast.Name) and n.id == name and
+            isinstance(n.ctx, (ast.Store, ast.Del))]
+    if len(defs) != 1:
+        return False
+    for n in walk_no_nested(node):
+        if isinstance(n, ast.Assign) and len(n.targets) == 1 and \
+                n.targets[0] is defs[0] and isinstance(n.value, ast.Call) \
+                and dotted(n.value.func) in ('cls', func.cls.name):
+            return True
+    return False
 
 
 def _bind_args(helper, call):
@@ -153,6 +181,13 @@ def _bind_args(helper, call):
                 out[p] = dfl[p]
             else:
                 return None
+    # a method called on another instance of the class: `self` of the
+    # helper is that object
+    recv = call.func.value if isinstance(call.func, ast.Attribute) else None
+    if isinstance(recv, ast.Name) and recv.id not in ('self', 'cls') and \
+            helper.cls is not None and recv.id != helper.cls.name and \
+            'self' in helper.params:
+        out['self'] = recv
     return out
 
 
